@@ -9,15 +9,16 @@
 
    This file contains only pinned statements, each closed by a lemma of Py/*.v.
    Model: Py/Tree.v + Py/Run.v, variant del_by_value = false (deletion success reported by
-   presence; the code as it stands reports it by the popped value -- defect D12, refuted in
-   Py/LegacyRefuted.v).  Reference: Py/Spec.v, a dict observed through calls = a sorted
+   presence, as the code does since the D12 repair 61d1dd3; the variant that reports it by the
+   popped value -- the sources before that repair -- is refuted in Py/LegacyRefuted.v).  Reference: Py/Spec.v, a dict observed through calls = a sorted
    association list per map.  Quantification: every finite list of calls (constructor,
    bulk load and range calls included), every capacity, several maps; no bound on sizes.
-   OBLIGATIONS: C07_history_behaves_like_dict C07_no_internal_error C07_delitem C07_stored_none_is_a_value C07_get_default_only_when_absent C07_getitem_keyerror_iff_absent C07_pop C07_popitem_removes_smallest C07_setdefault C07_update C07_copy_is_independent C07_clear C07_len_any_size C07_bool C07_capacity_check C07_legacy_refuted C07_nonvacuous *)
+   OBLIGATIONS: C07_history_behaves_like_dict C07_no_internal_error C07_delitem C07_stored_none_is_a_value C07_get_default_only_when_absent C07_getitem_keyerror_iff_absent C07_pop C07_popitem_removes_smallest C07_setdefault C07_update C07_copy_is_independent C07_clear C07_len_any_size C07_bool C07_capacity_check C07_legacy_refuted C07_nonvacuous C07_contains C07_popitem_keeps_capacity C07_len_call_depth_constant C07_legacy_recursive_len_depth_unbounded *)
 From Coq Require Import List Arith ZArith NArith Lia Bool.
 From BPT Require Import Common.Base Common.AMap Rust.Tree Rust.InvDefs
   Py.Tree Py.Run Py.Inv Py.Spec Py.NewProofs Py.InsertProofs Py.DeleteProofs Py.ReaderProofs
   Py.ReachFinal Py.Corollaries Py.LegacyRefuted.
+From BPT Require Import Extra.PyExtra.
 Import ListNotations.
 
 (* Every history, started from nothing (the first call is normally a constructor call),
@@ -123,3 +124,24 @@ Proof. exact py_delete_none_refuted. Qed.
    and the outputs are the reference's *)
 Definition C07_nonvacuous :=
   (demo_heights, demo_outputs_tail, demo_states_inv, demo_refines, DeleteExample.delete_nonvacuous).
+
+(* membership test = presence in the contents *)
+Theorem C07_contains : forall s z, PyInv s -> py_contains s z = Ok (is_some (m_get (pcontents s) z)).
+Proof. exact PyExtra.contains_spec. Qed.
+
+Theorem C07_popitem_keeps_capacity : forall s, PyInv s ->
+  exists s', py_popitem false s = Ok (s', hd_error (pcontents s)) /\ PyInv s' /\
+    pcontents s' = tl (pcontents s) /\
+    (forall e e', hd_error (pcontents s) = Some e -> In e' (pcontents s') ->
+       (kz (fst e) < kz (fst e'))%Z) /\
+    tcap s' = tcap s.
+Proof. exact PyExtra.popitem_keeps_capacity. Qed.
+
+(* len() uses a constant number of interpreter frames (ghost instrumentation of key_count, see Extra/PyExtra.v) *)
+Theorem C07_len_call_depth_constant : forall s, PyInv s -> len_frames s = Ok 1.
+Proof. exact PyExtra.len_frames_constant. Qed.
+
+(* the recursive key_count of the sources before the D4 repair needs one frame per leaf: unbounded (so the theorem above is not true of it) *)
+Theorem C07_legacy_recursive_len_depth_unbounded : forall n, exists s m,
+  PyInv s /\ legacy_len_frames s = Ok m /\ n <= m.
+Proof. exact PyExtra.legacy_len_frames_unbounded. Qed.
